@@ -65,6 +65,7 @@ type FuncContract struct {
 type PredDef struct {
 	Name   string
 	Params []string
+	ParamText string
 	Body   *SExpr
 	Pkg    string
 }
@@ -230,7 +231,7 @@ func (c *Contracts) parseFile(path, pkgPath string) error {
 			if err != nil {
 				return fmt.Errorf("%s:%d: %v", path, r.line, err)
 			}
-			pd := &PredDef{Name: name, Params: params, Body: body, Pkg: pkgPath}
+			pd := &PredDef{Name: name, Params: params, ParamText: strings.TrimSpace(r.text[lp+1 : rp]), Body: body, Pkg: pkgPath}
 			c.Preds[pkgPath+"."+name] = pd
 			if _, dup := c.Preds[name]; !dup {
 				c.Preds[name] = pd
@@ -245,6 +246,12 @@ func (c *Contracts) parseFile(path, pkgPath string) error {
 			}
 			if strings.HasPrefix(short, "ext:") { // external function: full key given
 				key = strings.TrimPrefix(short, "ext:")
+			}
+			if strings.HasPrefix(short, "iface:") { // interface method: iface:<type string>.<Method>
+				key = short
+			}
+			if strings.HasPrefix(short, "fnparam:") { // spec of a function-typed parameter: fnparam:<func>.<param>
+				key = "fnparam:" + pkgPath + "." + strings.TrimPrefix(short, "fnparam:")
 			}
 			if _, dup := c.Funcs[key]; dup {
 				return fmt.Errorf("%s:%d: duplicate contract for %s", path, r.line, key)
